@@ -31,6 +31,8 @@ def nontrivial(ln):
         return i >= 0 and any(c in s[i + 3:] for c in b":/?[")
     if cmd == "uinto":
         return True
+    if cmd == "uhostunix":
+        return b"%" in G.untok(t[-1])
     if cmd == "unew":
         return b"://" in G.untok(t[-1])
     if cmd in ("ugetp", "ugetq"):
@@ -189,6 +191,13 @@ def check_case(cx, ln, mo, co, spec):
                 cx.bad("coap_uri_into_optlist: options out of order, duplicated Uri-Host/Uri-Port, "
                        "or a dot segment emitted", ln, mo, co)
                 return
+    elif cmd == "uhostunix":
+        h = G.untok(t[1])
+        want = "unix=%d" % int(h[:3] in (b"%2F", b"%2f") or h[:1] == b"/")
+        if co != want:
+            cx.bad("coap_host_is_unix_domain: wrong answer for the length-delimited host", ln, mo, co,
+                   "expected: %s\n" % want)
+            return
     elif cmd == "unew":
         want = G.ref_split(G.untok(t[2]), False, t[1])
         got = "reject" if co == "rc=-1" else co.split(" clone=")[0]
@@ -324,12 +333,56 @@ def main(run):
         for px in (0, 1):
             for tail in (b"://h", b"://h:", b"://h:1", b"://[::1]:65535/a?b", b"://%2Fsock", b":/h"):
                 base_lines.append("uspl %d %s %s" % (px, caps, G.tok(sch + tail)))
-    if not quick:
-        # segments longer than an option can carry (65804): header arithmetic of coap_opt_setheader
-        for k in (65804, 65805, 70000):
-            base_lines.append("upath %d %s" % (k + 10, "61" * k))
-            base_lines.append("uquery %d %s" % (k + 3, "61" * k))
-            base_lines.append("upol 1 11 %s" % ("61" * k))
+    # option-length representability boundaries: a single segment / item of exactly L DECODED bytes
+    # (header forms change at 12/13 and 268/269; 65804 = 269 + 65535 is the largest length an
+    # option header can carry, 65805 would wrap to "0e 00 00"), written plainly, with the last
+    # byte escaped, and fully escaped for the small ones; alone and between two other segments;
+    # buffer exactly fitting, one short, roomy.  Both tiers, base and asan.
+    bnd = []
+    for L in (11, 12, 13, 14, 267, 268, 269, 270, 65803, 65804, 65805, 65806, 70000):
+        hdr = 1 if L < 13 else 2 if L < 269 else 3
+        big = L > 300
+        forms = [b"a" * L, b"a" * (L - 1) + b"%7A"]
+        if not big or not quick:
+            forms.append(b"%41" + b"a" * (L - 1))
+        if not big:
+            forms.append(b"%7a" * L)
+        for raw in forms:
+            h = G.tok(raw)
+            for bl in ((hdr + L, hdr + L - 1) if big and quick else (hdr + L, hdr + L - 1, hdr + L + 10)):
+                bnd.append("upath %d %s" % (bl, h))
+                bnd.append("uquery %d %s" % (bl, h))
+            if not big or not quick or raw is forms[0]:
+                bnd.append("upol 1 11 " + h)
+                bnd.append("uqol 1 15 " + h)
+        if not big or not quick or L == 65805:
+            bnd.append("upath %d %s" % (L + 20, G.tok(b"x/" + b"a" * L + b"/y")))
+            bnd.append("uquery %d %s" % (L + 20, G.tok(b"x&" + b"a" * (L - 1) + b"%7A" + b"&y")))
+    base_lines += bnd
+    asan_lines += [ln for ln in bnd if not quick or len(ln) < 2000 or ln.startswith("upath")]
+    run.cov["length_boundary_cases"] = len(bnd)
+    # hosts that END the exact-size buffer, through coap_uri_into_optlist / coap_host_is_unix_domain
+    # / coap_split_uri: the Unix-domain test reads host->s[0..2] (asan traps a read past "%2")
+    hostend = []
+    HEND = [b"%", b"%2", b"%2f", b"%2F", b"%2Fx", b"%2fsock", b"%2G", b"%3", b"%25", b"%2%", b"%%2F",
+            b"/", b"h", b"2F", b"%2F%2F", b"[%2]", b"[%2F]", b"a%2", b"a%2F"]
+    for h in HEND:
+        hostend.append("uhostunix " + G.tok(h))
+        for sch in (b"coap", b"coaps", b"coap+tcp", b"coaps+tcp", b"coap+ws", b"coaps+ws"):
+            for tail in (b"", b":1", b"/a", b"?q"):
+                u = G.tok(sch + b"://" + h + tail)
+                hostend.append("uspl 0 %s %s" % (caps, u))
+                if caps == "11111":
+                    for dst in ("-", "198.51.100.1"):
+                        hostend.append("uinto 1 %s %s" % (dst, u))
+                    hostend.append("uinto 0 - %s" % u)
+    for s in G.all_strings(3):
+        hostend.append("uhostunix " + G.tok(s))
+        if caps == "11111" and s:
+            hostend.append("uinto 1 - " + G.tok(b"coap://" + s))
+    base_lines += hostend
+    asan_lines += hostend
+    run.cov["host_at_end_cases"] = len(hostend)
     # Uri-Port decision: every port x every scheme coap_split_uri accepts (finite leaf domain)
     if caps == "11111":
         for sch in (b"coap", b"coaps", b"coap+tcp", b"coaps+tcp", b"coap+ws", b"coaps+ws"):
